@@ -139,12 +139,12 @@ class C10(vlib.PropertyCheck):
                        'not a fault and the history contains at least one construct other than ordinary characters; distinct = '
                        'distinct case lines')
     assumptions = ['the input sits in an object of CONFIG_BUFF bytes (what spifconf_parse_line and the recursive call provide) and is shorter than CONFIG_BUFF',
-                   'getenv is an oracle: the harness builds the environment with clearenv/setenv from the case line',
-                   'environment values, program name and version contain no NUL byte',
+                   'getenv is an oracle: the harness builds the environment with clearenv/setenv from the case line; model side: first NAME=value entry with that prefix, as glibc',
+                   'environment values, program name and version contain no NUL byte and are shorter than 4 GB (strlen - 1 is kept in 32 bits)',
                    'only the seven built-ins registered by spifconf_init_subsystem are present (table generated from the source)',
                    '%exec, %dirscan, %random and backquotes are outside this property (model stops with an event; C11 covers spawning)',
                    'spiftool_get_word / spiftool_num_words behave as their C12 model (Split/SplitModel.v)',
-                   'nesting depth of %calls small enough for the C stack (each level holds a CONFIG_BUFF frame)',
+                   'nesting depth of %calls small enough for the C stack (the C stack is not modelled)',
                    '"C" locale character classes']
     MANIFEST = dict(
         technique='Rocq theorems about an executable Gallina model of spifconf_shell_expand, the variable store and the built-ins + extracted-model/implementation correspondence check with painted stack, heap and input slack',
@@ -182,7 +182,7 @@ class C10(vlib.PropertyCheck):
             for t in itertools.product(small, repeat=l):
                 cases.append(case(env0, [e(''.join(t)), 'g:' + hx('k')]))
         # 3. random histories
-        for _ in range(1200 if quick else 25000):
+        for _ in range(1000 if quick else 15000):
             env = mkenv(rng)
             ops = []
             for _ in range(rng.choice([1, 1, 2, 3, 5, 8])):
@@ -217,14 +217,18 @@ class C10(vlib.PropertyCheck):
                     ops.append('g:' + hx(k))
             cases.append(case({}, ops))
         # 5. the last 300 bytes before the limit: j is carried there by one long value, then a tail
-        for _ in range(40 if quick else 600):
+        for _ in range(40 if quick else 250):
             tail_tokens = rng.choice([1, 2, 4, 8, 20])
             end = rng.choice(ENDS + [None] * 10)
             tail = value(rng, tail_tokens, end, depth=1)
             big = MAXJ - rng.choice([0, 1, 2, 3, 4, 5, 8, 16, 40, 100, 299, 300]) - rng.choice([0, 0, len(tail)])
             big = max(1, big)
+            how = rng.randrange(3) if rng.random() < 0.9 else 3
+            if how == 3:
+                # part of the text arrives through the store (kept short: the C12 word model is quadratic)
+                mid = rng.choice([1, 7, 300, 1500])
+                big = max(1, big - mid)
             env = mkenv(rng, big)
-            how = rng.randrange(3) if rng.random() < 0.95 else 3
             if how == 0:
                 text = '$BIG' + tail
             elif how == 1:
@@ -233,10 +237,11 @@ class C10(vlib.PropertyCheck):
                 env['HOME'] = env.pop('BIG')
                 text = '~' + tail
             else:
-                text = '%put(k $BIG)%get(k)' + tail
+                env['MID'] = 'm' * mid
+                text = '$BIG%put(k $MID)%get(k)' + tail
             cases.append(case(env, [e(text)]))
         # 6. long plain inputs (the line limit is CONFIG_BUFF - 2 characters after chomp)
-        for _ in range(3 if quick else 40):
+        for _ in range(3 if quick else 25):
             n = rng.choice([CONFIG_BUFF - 2, CONFIG_BUFF - 3, CONFIG_BUFF - 1 - rng.randrange(300), rng.randrange(2000, 20000)])
             end = rng.choice(ENDS + [None] * 5)
             tail = value(rng, rng.choice([0, 1, 3, 10]), end, depth=1)
@@ -273,6 +278,27 @@ class C10(vlib.PropertyCheck):
 
 
 C10.MANIFEST['text'] = (
-    'placeholder')
+    'Rocq theorems about an executable Gallina model of spifconf_shell_expand, spifconf_get_var/put_var and the built-ins '
+    '%get %put %version %appname (coq/Expand/ExpandModel.v; mirrors the code after the C10 repairs: every cell access is checked, '
+    'newbuff/Command/EnvVar start out unwritten, j is a 32-bit unsigned). Proved for every NUL-free input shorter than CONFIG_BUFF, '
+    'every environment (getenv as a function with NUL-free values < 4 GB), every well-formed store, unbounded nesting: '
+    'C10_expand_no_overread (the reading part never faults on an exactly sized object: no read past the terminator, whatever the '
+    'input ends in); C10_expand_cells_below_j_written and C10_expand_initialised (no fault at all on a CONFIG_BUFF object whose slack '
+    'is arbitrary, hence no dependence on leftover memory; every cell below the final j written; result NUL-terminated and shorter '
+    'than CONFIG_BUFF; store stays sorted and well-formed); C10_expand_spec (model = the recursive specification of the expansion '
+    'rules in ExpandSpec.v, all constructs and nestings, whenever the expanded text and every nested argument expansion stay below '
+    'CONFIG_BUFF - 2 characters; beyond that the code truncates and the specification is silent); C10_store_law and four store '
+    'corollaries (all put/delete histories; sorted, one entry per name, get returns the last put unless deleted); '
+    'C10_copy_is_safe_strncpy (the bounded copy is the C13 model). The proof goes through a list-level loop (ExpandList.v) that the '
+    'buffer model refines for all inputs. spiftool_get_word/num_words are taken from the C12 model with its exactness theorems. '
+    'Not followed by the model (it stops with an event): %exec, %dirscan, %random and backquotes; heap leaks are not modelled (the '
+    'harness counts blocks left allocated and compares with 3 per new store entry as a level-B observable). The C stack is not '
+    'modelled: with newbuff a local array each nesting level kept a CONFIG_BUFF frame and about 400 nested calls overflowed an 8 MB '
+    'stack (reported; repaired by the fix that moves newbuff to a MALLOC(CONFIG_BUFF) block per call, which the model - a fresh '
+    'unwritten block - and tools/gen_c10.py accept in either shape; generated nesting stays below 12). Tied to the current tree by running the extracted model and the ASan/UBSan build (conf.c '
+    '#included by the harness so the static store can be reset and put/delete/get called directly) on the same generated histories; '
+    'each history runs three times: stack, malloc blocks and input slack painted 0xA5, then 0x5A (transcripts must be identical), then '
+    'with every non-growing input in an exactly sized heap block so ASan traps a one-byte over-read; system/popen/fork/execve are '
+    'wrapped and a call is reported as an event.')
 
 CHECK = C10()
